@@ -253,7 +253,10 @@ def check(ctx):
             reach = sem.reaching(ps, st_)
             ok = bool(reach) and c in lens
             for p, conds in reach:
-                if not any(pres_text in t and ' & ' in t and pol for t, pol in ((x[0], x[1]) for x in conds)):
+                # a test of one bit of the bitmap:  pres & (1 << k)  /  (pres >> k) & 1  /  (pres >> k) % 2  (a guard clause `if not bit: continue` has the other polarity)
+                def bit_test(t):
+                    return pres_text in t and (' & ' in t or ' % 2' in t or '% 2)' in t) and ('<<' in t or '>>' in t or ' & ' in t)
+                if not any(bit_test(t) for t, pol in ((x[0], x[1]) for x in conds)):
                     ok = False
             ctx.instance('C07.R5', '%s.MembersType.decode_additions: open-type length read under the presence-bit test' % codec, 'ok' if ok else 'VIOLATION', node=c, file=m.rel)
             if not ok:
